@@ -296,12 +296,16 @@ Definition all_done (s : st) : bool := forallb thread_done (threads s).
 Definition thread_idle (th : thread) : bool := match tpc th with Idle => true | _ => false end.
 Definition quiescent (s : st) : bool := forallb thread_idle (threads s).
 
-(* for_each at quiescence: the values below _next_value whose link cell holds ACTIVE_FLAG.
-   (The C++ reports them as maximal half-open ranges; the range grouping is checked on the implementation
-   by the harness monitor, not modelled.) *)
+(* for_each at quiescence: the scan covers [0, bound) where bound = min(<capacity operand>, _next_value) exactly as the
+   source computes it (capacity = snapshot.size() of _free_next_value = whole blocks of FREE_BLOCK cells, grown by ensure;
+   a static_cast<T> in the operand is a reduction mod tail + 1 = 2^bits), and reports the cells holding ACTIVE_FLAG.
+   (The C++ reports them as maximal half-open ranges; the range grouping is checked on the implementation by the harness
+   monitor, not modelled.) *)
 Definition zseq (n : Z) : list Z := map Z.of_nat (seq 0 (Z.to_nat n)).
+Definition capacity (s : shared) : Z := FREE_BLOCK * ((Z.of_nat (length (nxt s)) + FREE_BLOCK - 1) / FREE_BLOCK).
+Definition foreach_bound (c : cfg) (s : shared) : Z := Z.min (foreach_cap_operand (capacity s) (tail c)) (nv s).
 Definition live (c : cfg) (s : shared) : list Z :=
-  filter (fun v => getz (nxt s) v =? ACTIVE_FLAG (tail c)) (zseq (nv s)).
+  filter (fun v => getz (nxt s) v =? ACTIVE_FLAG (tail c)) (zseq (foreach_bound c s)).
 
 (* every value some client currently holds (kept by a thread, taken and not finished - raw or through an armed
    Accessor -, or sitting in the box) *)
